@@ -1,9 +1,9 @@
 SPECIFICATION FairSpec
 CONSTANTS
-  MaxClocks = 4
-  Rounds = 1
-  DVals = {1, 2, 3}
-  Overlap = TRUE
+  MaxClocks = 2
+  Rounds = 3
+  DVals = {1, 3, 5}
+  Overlap = FALSE
   Hist = FALSE
   Fault = "none"
 INVARIANTS TypeOK BusyIsEnabled OutcomeIsOfForm ByDeadline ExactlyOncePrefix InTimeCounted NoStuckLeak SecondCallRefused CounterRestored
